@@ -164,7 +164,7 @@ package masswallet
 //@   ensures result != nil
 
 //@ func (*WalletManager).getUtxosExcludeBindingAndStaking
-//@   props C02 C09
+//@   props C02 C09 C17
 //@   nopanic off
 //@   modifies *
 //@   only UTXOUsed TxMemPool CheckPoolOutPointSpend
@@ -278,3 +278,33 @@ package masswallet
 //@   modifies *
 //@   only EstimateBindingTxFee
 //@   at "msgTx.LockTime = locktime" assert[C02] ghosts("txSender", msgTx) == fromAddress && ghosts("txChange", msgTx) == ""
+
+// ---- C17: the coin and balance queries read the sync height inside the read transaction they read the coins from
+// (the callee preconditions on ScriptAddressUnspents / ScriptAddressBalance / WalletBalance are proved in the closures)
+//@ func (*WalletManager).getUtxos
+//@   props C17
+//@   nopanic off
+//@   modifies *
+//@   only nothing
+//@   closure#1 nopanic off
+//@   closure#1 modifies *
+//@   closure#1 only SyncedTo ScriptAddressUnspents
+//@   closure#1 loop#1 skip
+//@ func (*WalletManager).WalletBalance
+//@   props C17
+//@   nopanic off
+//@   modifies *
+//@   only nothing
+//@   closure#1 nopanic off
+//@   closure#1 modifies *
+//@   closure#1 only SyncedTo WalletBalance
+//@ func (*WalletManager).AddressBalance
+//@   props C17
+//@   nopanic off
+//@   modifies *
+//@   only nothing
+//@   closure#1 nopanic off
+//@   closure#1 modifies *
+//@   closure#1 only SyncedTo
+//@   closure#1 loop#1 skip
+//@   closure#1 at "m, err := w.utxoStore.ScriptAddressBalance(tx, scriptSet, confs,..." assert[C17] syncedTo != nil && syncedTo.Height == ghostu64("syncHeightOf", tx)
